@@ -101,12 +101,24 @@ class Ctx:
     def build(self, targets=None):
         """incremental make of the whole development (or given .vo targets); returns (ok, log)"""
         with Lock("build"):
-            if not os.path.exists(os.path.join(COQ, "Makefile")):
+            files = sorted(os.path.relpath(os.path.join(d, f), COQ) for sub in ("gen", ".", "props") for d in [os.path.join(COQ, sub)] if os.path.isdir(d)
+                           for f in os.listdir(d) if f.endswith(".v") and not f.startswith("."))
+            want = "-Q . IQ\n" + "\n".join(files) + "\n"
+            cp = os.path.join(COQ, "_CoqProject")
+            if not os.path.exists(cp) or open(cp).read() != want or not os.path.exists(os.path.join(COQ, "Makefile")):
+                open(cp, "w").write(want)
                 sh(["coq_makefile", "-f", "_CoqProject", "-o", "Makefile"], cwd=COQ)
             cmd = ["timeout", "1500", "make", "-j%d" % NPROC, "-k"] + (targets or [])
             rc, out = sh(cmd, cwd=COQ, timeout=1600)
         self.checker_cmds.append("make -C coq -j%d %s" % (NPROC, " ".join(targets or [])))
         return rc == 0, out
+
+    def prepare(self, prop_file):
+        """regenerate gen/, rebuild, check the property theorems; a build failure elsewhere in the library is only noted"""
+        self.regen()
+        ok, log = self.build()
+        if not ok: self.notes.append("make reported errors (only the dependencies of props/%s matter here): %s" % (prop_file, log[-400:]))
+        return self.obligations(prop_file)
 
     def obligations(self, prop_file, deps_ok=True):
         """Compile props/<file> into scratch, list its theorems and their Print Assumptions output.
